@@ -14,7 +14,7 @@ EXPLANATION = (
     "ranks, priorities): every MOPriority.priority_unsafe must return SCORE because its consumers index it by item; "
     "S4 MOASHA's decision shape - the new trial's metrics are appended before the priority is computed, its rank is read at "
     "the last position, STOP iff rank > 1/reduction_factor, the trial is recorded on every path, STOP at max_t, per-metric "
-    "sign from the mode list. NOT decided: the epsilon-net geometry inside a Pareto layer, tie behaviour of searchsorted.")
+    "sign from the mode list. S2 also: the order inside a layer is a permutation of the layer (every position leaves the work set onto the order list and vice versa, until the work set is empty). NOT decided: the epsilon-net geometry inside a Pareto layer, tie behaviour of searchsorted.")
 
 FLOOR = {"S1": 3, "S2": 3, "S3": 4, "S4": 6}
 
